@@ -1,7 +1,7 @@
 """C09 — base64 codec and docenc round-trip exactly and reject foreign bytes.
 Tie: in-process base64_encode/base64_decode and the real bin/docenc against the Lean model;
 oracle: PV.Spec.Base64 (rfc4648, judgeDecode) and the round-trip statement itself."""
-import base64, itertools
+import base64, itertools, os
 import pvlib
 from pvlib import hx, unhx
 
@@ -271,6 +271,28 @@ def run_docenc(ctx):
                                    "correspondence": "PV.Docenc.decode vs bin/docenc -d"}, no_input=True,
                                    summary=f"docenc -d model/impl differ on {o[:80]}")
             break
+    # input given as FILE arguments (not stdin), with names that begin like an index ("2docs.b64", "2-4x.b64", "1st.txt"): the file is
+    # opened and the index arguments select from it exactly as from stdin
+    import shutil
+    wd = os.path.join(ctx.tmp, "c09files")
+    shutil.rmtree(wd, ignore_errors=True)
+    os.makedirs(wd)
+    fdocs = [b"alpha\n", b"bravo\n", b"charlie\n", b"delta\n", b"echo\n"]
+    fb64 = b"".join(base64.b64encode(d) + b"\n" for d in fdocs)
+    for fname in ("plain.b64", "2docs.b64", "2-4x.b64", "1st.txt", "7"):
+        open(os.path.join(wd, fname), "wb").write(fb64)
+        for idx in ([], ["1"], ["4-5"], ["3", "1"]):
+            if fname == "7" and not idx:
+                continue
+            st, out, err = pvlib.run_tool([ctx.bin("docenc"), "-d", "-q"] + idx + ([fname] if fname != "7" else ["./7"]), b"", env=pvlib.san_env(), timeout=30, cwd=wd)
+            ctx.count("docenc.file-args", 1, [(fname, tuple(idx))])
+            sel = sorted(set(i for a_ in idx for i in (range(int(a_.split("-")[0]), int(a_.split("-")[1]) + 1) if "-" in a_ else [int(a_)]))) or range(1, 6)
+            want = b"".join(fdocs[i - 1] + b"\n" for i in sel)
+            if st != 0 or out != want:
+                pvlib.report_violation(ctx, f"docenc-file:{fname}:{','.join(idx)}", {"argv": ["docenc", "-d", "-q"] + idx + [fname], "file_hex": hx(fb64), "status": st,
+                                       "got": out.decode(errors="replace"), "want": want.decode()},
+                                       summary=f"docenc -d {' '.join(idx)} {fname}: printed {out[:60]!r}, the selected documents of the file are {want[:60]!r} (status {st})")
+                break
     # malformed index arguments are rejected, not reinterpreted
     for bad_arg, data in (("3-1", b"YQ==\n"),):
         st, out, err = docenc_tool(ctx, ["-d", bad_arg], data)
